@@ -7,6 +7,7 @@ import (
 	"math/big"
 	"runtime"
 	"sort"
+	"strings"
 	"sync"
 	"sync/atomic"
 	"time"
@@ -238,6 +239,27 @@ func runOp(kind int, r *core.Rng, s *slot, sh *sharedIn) (digest string, rnd []b
 		outs = append(outs, merr != nil)
 		var c message.IKEPayloadContainer
 		outs = append(outs, c.BuildNotify5G_QOS_INFO(r.Byte(), make([]uint8, 256+r.Intn(50)), true, false, 0) != nil, c.BuildEAP5GNAS(r.Byte(), make([]byte, 65536+r.Intn(100))) != nil)
+		// a message with a CRITICAL payload of a type the library does not implement: refused, and the error says why
+		{
+			t := byte(r.Pick(49, 50, 53, 100, 200, 205, 207, 255, 1, 32))
+			body := r.Bytes(r.Intn(12))
+			chain := append([]byte{0, 0x80, 0, byte(4 + len(body))}, body...)
+			hdr := &abs.Msg{ISPI: r.U64(), RSPI: r.U64(), Major: 2, Exch: 37, MsgID: r.U32()}
+			whole := append(ref.EncodeHeader(hdr, t, 28+len(chain)), chain...)
+			err := new(message.IKEMessage).Decode(whole)
+			txt := "<nil>"
+			if err != nil {
+				txt = strings.SplitN(err.Error(), "\n", 2)[0]
+			}
+			outs = append(outs, err != nil, txt)
+			var pc message.IKEPayloadContainer
+			err2 := pc.Decode(t, chain)
+			txt2 := "<nil>"
+			if err2 != nil {
+				txt2 = strings.SplitN(err2.Error(), "\n", 2)[0]
+			}
+			outs = append(outs, txt2)
+		}
 		// garbage and truncated datagrams, a tampered protected one
 		outs = append(outs, new(message.IKEMessage).Decode(r.Bytes(r.Intn(60))) != nil)
 		if s.last != nil && len(s.last) > 40 {
